@@ -241,6 +241,15 @@ class ShapeError(Exception):
     pass
 
 
+def reraise_gap(e):
+    """Instruction classes wrap every exception into MichelsonRuntimeError: a gap of the fake node must stay a harness error."""
+    x = e
+    while x is not None:
+        if isinstance(x, HarnessGap):
+            raise x
+        x = x.__cause__ or x.__context__
+
+
 def op_text(w, op):
     k = T.v_str(w.KT, w.keys[op[1]])
     if len(op) == 2:
@@ -383,6 +392,7 @@ def check_state(cfg, history, last_desc, want_e2e=True):
     try:
         res = bm.aggregate_lazy_diff(ld)
     except Exception as e:
+        reraise_gap(e)
         return [(f'aggregate_lazy_diff raises {type(e.__cause__ or e).__name__} {last_desc}', repr(e))], canon, None
     vs, content = judge_diff(w, ld, ref, 'aggregate_lazy_diff')
     out += [(f'{what} {last_desc}', det) for what, det in vs]
@@ -445,9 +455,8 @@ def explore(cfg, r: Result, tier):
                 exp_obs, ref2 = ref.step(ref_op(w, op))
                 try:
                     obs, bm2 = w.step(bm, op)
-                except HarnessGap:
-                    raise
                 except Exception as e:
+                    reraise_gap(e)
                     r.out(f'{op[0]} raises')
                     r.viol(f'{op_class(op)} raises {type(e.__cause__ or e).__name__} on {status} key', case,
                            f'{cfg_key} history {[op_text(w, o) for o in h2]}: {e!r}')
@@ -497,9 +506,8 @@ def replay(case):
         exp_obs, ref = ref.step(ref_op(w, op))
         try:
             obs, bm = w.step(bm, op)
-        except HarnessGap:
-            raise
         except Exception as e:
+            reraise_gap(e)
             out.append((f'{op_class(op)} raises {type(e.__cause__ or e).__name__} on {status} key', repr(e)))
             break
         if obs != exp_obs:
